@@ -45,7 +45,8 @@ Section Kin3.
 
   Definition InvA (w : WS) (k : nat) : Prop :=
     Good O M w /\ ga O w 0 = svzero O /\
-    forall j, 0 < j < k -> gv O w j = vF O M q qd j /\ gc O w j = cU j /\ ga O w j = aU j /\ jS O M w j = SF O M q j.
+    forall j, 0 < j < k -> gv O w j = vF O M q qd j /\ gc O w j = cU j /\ ga O w j = aU j /\ jS O M w j = SF O M q j /\
+                           gXb O w j = XbF O M q j.
 
   Lemma uk_step_invA w i : 0 < i < n -> InvA w i -> InvA (uk_step O M q qd qdd w i) (S i).
   Proof.
@@ -72,16 +73,18 @@ Section Kin3.
                then w_v (w_Xb w1 (upd (wXb w1) i (gXl O w1 i))) (upd (wv w1) i (gvJ O w1 i))
                else w_v (w_Xb w1 (upd (wXb w1) i (st_mul O (gXl O w1 i) (gXb O w1 (getlam M i)))))
                         (upd (wv w1) i (svadd O (st_apply O (gXl O w1 i) (gv O w1 (getlam M i))) (gvJ O w1 i)))).
-    assert (E2 : wv w2 = upd (wv w1) i (vF O M q qd i) /\ wa w2 = wa w1 /\ wc w2 = wc w1 /\ wXl w2 = wXl w1 /\
+    assert (E2 : wXb w2 = upd (wXb w1) i (XbF O M q i) /\ wv w2 = upd (wv w1) i (vF O M q qd i) /\ wa w2 = wa w1 /\ wc w2 = wc w1 /\ wXl w2 = wXl w1 /\
                  wvJ w2 = wvJ w1 /\ wcJ w2 = wcJ w1 /\ wS w2 = wS w1 /\ wmS w2 = wmS w1 /\ wcS w2 = wcS w1 /\ ws_len w2 n).
-    { unfold w2. rewrite (vF_unfold O M q qd i W (conj Hi Hn)).
+    { unfold w2. rewrite (vF_unfold O M q qd i W (conj Hi Hn)), (XbF_unfold O M q i W (conj Hi Hn)).
       destruct (Nat.eqb (getlam M i) 0) eqn:E; wsimp.
-      - rewrite HvJ. repeat split; try reflexivity; wsimp; rewrite ?upd_length; assumption.
+      - rewrite HvJ, HXl. repeat split; try reflexivity; wsimp; rewrite ?upd_length; assumption.
       - apply Nat.eqb_neq in E. rewrite HXl, HvJ.
         assert (Hvl : gv O w1 (getlam M i) = vF O M q qd (getlam M i)).
         { unfold gv. rewrite Uv. apply (proj1 (Hinv (getlam M i) ltac:(lia))). }
-        rewrite Hvl. repeat split; try reflexivity; wsimp; rewrite ?upd_length; assumption. }
-    destruct E2 as (E2v & E2a & E2c & E2Xl & E2vJ & E2cJ & E2S & E2mS & E2cS & L2).
+        assert (Hxl : gXb O w1 (getlam M i) = XbF O M q (getlam M i)).
+        { unfold gXb. rewrite UXb. apply (proj2 (proj2 (proj2 (proj2 (Hinv (getlam M i) ltac:(lia)))))). }
+        rewrite Hvl, Hxl. repeat split; try reflexivity; wsimp; rewrite ?upd_length; assumption. }
+    destruct E2 as (E2X & E2v & E2a & E2c & E2Xl & E2vJ & E2cJ & E2S & E2mS & E2cS & L2).
     clearbody w2.
     assert (Ev : gv O w2 i = vF O M q qd i) by (unfold gv; rewrite E2v; apply nth_upd_eq; lia).
     set (w3 := w_c w2 _). set (w4 := w_a w3 _).
@@ -104,18 +107,20 @@ Section Kin3.
         * unfold gc; wsimp. exact Ec.
         * unfold ga; wsimp. exact Ea.
         * rewrite (jS_ext O M w1) by (wsimp; assumption). exact HS.
-      + assert (Hjk : 0 < j < i) by lia. destruct (Hinv j Hjk) as (A & B & C & D).
+        * unfold gXb; wsimp. rewrite E2X. apply nth_upd_eq. lia.
+      + assert (Hjk : 0 < j < i) by lia. destruct (Hinv j Hjk) as (A & B & C & D & F).
         repeat split.
         * unfold gv; wsimp. rewrite E2v, nth_upd_neq by auto. rewrite Uv. exact A.
         * unfold gc; wsimp. rewrite nth_upd_neq by auto. rewrite E2c, Uc. exact B.
         * unfold ga; wsimp. rewrite nth_upd_neq by auto. rewrite E2a, Ua. exact C.
         * rewrite (jS_ext O M w1) by (wsimp; assumption). unfold w1, jcalc.
           rewrite (jS_frame O M cust_inj); auto; unfold n in *; lia.
+        * unfold gXb; wsimp. rewrite E2X, nth_upd_neq by auto. rewrite UXb. exact F.
   Qed.
 
   Theorem uk_a_spec (w : WS) : Good O M w ->
     let w' := update_kinematics O M w q qd qdd in
-    forall i, 0 < i < n -> gv O w' i = vF O M q qd i /\ gc O w' i = cU i /\ ga O w' i = aU i.
+    forall i, 0 < i < n -> gv O w' i = vF O M q qd i /\ gc O w' i = cU i /\ ga O w' i = aU i /\ gXb O w' i = XbF O M q i.
   Proof.
     intros Hg. cbv zeta. rewrite uk_is_fold. unfold body_range.
     pose proof (wf_pos M W) as Hpos. fold n in Hpos.
@@ -130,6 +135,27 @@ Section Kin3.
         + intros j Hj. lia.
       - intros w' i Hi HI. apply uk_step_invA; auto. lia. }
     replace (1 + Nat.pred n) with n in K by lia.
-    intros i Hi. destruct K as (_ & _ & K). destruct (K i Hi) as (A & B & C & _). auto.
+    intros i Hi. destruct K as (_ & _ & K). destruct (K i Hi) as (A & B & C & _ & F). auto.
+  Qed.
+
+  (* the 6-D point acceleration of a movable body is a function of model, state and point only *)
+  Theorem point_acceleration_ws_independent (w1 w2 : WS) (id : N) pt : Good O M w1 -> Good O M w2 ->
+    (id < fixed_disc)%N -> 0 < N.to_nat id < n ->
+    snd (calc_point_acceleration6 O M w1 q qd qdd id pt true) = snd (calc_point_acceleration6 O M w2 q qd qdd id pt true).
+  Proof.
+    intros G1 G2 Hid Hi.
+    assert (Z : forall w, Good O M w -> Good O M (zero_a0 O (zero_v0 O w))).
+    { intros w [L G]. split.
+      - unfold ws_len, zero_a0, zero_v0 in *; cbn. rewrite !upd_length. exact L.
+      - intros j Hj. destruct (G j Hj) as [A B]. split; [revert A; apply WsInvJ_ext; reflexivity | revert B; apply kind_dof_ext; reflexivity]. }
+    unfold calc_point_acceleration6. cbn [snd]. unfold point_acceleration6_nk, ref_point.
+    assert (Hf : is_fixed_id M id = false).
+    { unfold is_fixed_id. apply N.leb_gt in Hid. rewrite Hid. reflexivity. }
+    rewrite Hf. unfold point_X, world_orient.
+    replace (N.leb fixed_disc (N.of_nat (N.to_nat id))) with false by (symmetry; apply N.leb_gt; lia).
+    rewrite !N2Nat.id.
+    destruct (uk_a_spec _ (Z _ G1) _ Hi) as (V1 & _ & A1 & X1).
+    destruct (uk_a_spec _ (Z _ G2) _ Hi) as (V2 & _ & A2 & X2).
+    rewrite V1, V2, A1, A2, X1, X2. reflexivity.
   Qed.
 End Kin3.
